@@ -212,6 +212,22 @@ func cosmosDest(info *types.Info, parents map[ast.Node]ast.Node, x ast.Node) str
 			if sel, ok := ast.Unparen(p.Fun).(*ast.SelectorExpr); ok && sel.Sel.Name == "SetPlanID" {
 				return "planID"
 			}
+			// the entry field is the source of a decode call: F(entry.f, &dst) / F(entry.f, dst)
+			if len(p.Args) == 2 && containsNode(p.Args[0], x) {
+				a := ast.Unparen(p.Args[1])
+				if u, ok := a.(*ast.UnaryExpr); ok && u.Op == token.AND {
+					a = ast.Unparen(u.X)
+				}
+				if o := ObjOf(info, a); o != nil {
+					var body ast.Node = p
+					for b := parents[ast.Node(p)]; b != nil; b = parents[b] {
+						body = b
+					}
+					if d := destViaVar(info, body, pointee(info, body, o), p.Pos(), 1); d != "" {
+						return d
+					}
+				}
+			}
 		case *ast.BlockStmt:
 			return ""
 		}
@@ -277,7 +293,7 @@ func destViaVar(info *types.Info, body ast.Node, obj types.Object, from token.Po
 					a = ast.Unparen(u.X)
 				}
 				if o := ObjOf(info, a); o != nil && o != obj {
-					second, secondPos = o, x.Pos()
+					second, secondPos = pointee(info, body, o), x.Pos()
 				}
 			}
 		}
@@ -287,6 +303,62 @@ func destViaVar(info *types.Info, body ast.Node, obj types.Object, from token.Po
 		return destViaVar(info, body, second, secondPos, depth+1)
 	}
 	return dest
+}
+
+// pointee: when every definition of the local o is `v` or `&v` for one other variable v (a decode
+// target chosen between the variable and its address), decoding into o decodes into v.
+func pointee(info *types.Info, body ast.Node, o types.Object) types.Object {
+	var base types.Object
+	ok := true
+	note := func(rhs ast.Expr) {
+		r := ast.Unparen(rhs)
+		if u, isU := r.(*ast.UnaryExpr); isU && u.Op == token.AND {
+			r = ast.Unparen(u.X)
+		}
+		if c, isC := r.(*ast.CallExpr); isC && len(c.Args) == 1 { // conversion any(&v)
+			if tv, has := info.Types[c.Fun]; has && tv.IsType() {
+				r = ast.Unparen(c.Args[0])
+				if u, isU := r.(*ast.UnaryExpr); isU && u.Op == token.AND {
+					r = ast.Unparen(u.X)
+				}
+			}
+		}
+		b := ObjOf(info, r)
+		if b == nil || b == o || (base != nil && b != base) {
+			ok = false
+			return
+		}
+		base = b
+	}
+	ast.Inspect(body, func(n ast.Node) bool {
+		switch x := n.(type) {
+		case *ast.AssignStmt:
+			for i, l := range x.Lhs {
+				if ObjOf(info, l) == o {
+					if len(x.Rhs) == len(x.Lhs) {
+						note(x.Rhs[i])
+					} else {
+						ok = false
+					}
+				}
+			}
+		case *ast.ValueSpec:
+			for i, id := range x.Names {
+				if info.Defs[id] == o {
+					if len(x.Values) == len(x.Names) {
+						note(x.Values[i])
+					} else {
+						ok = false
+					}
+				}
+			}
+		}
+		return true
+	})
+	if ok && base != nil {
+		return base
+	}
+	return o
 }
 
 var cosmosMeta = map[string]bool{"PartitionKey": true, "Swarm": true, "Type": true, "ETag": true, "Pos": true}
